@@ -496,6 +496,164 @@ pub fn many_small_records(rng: &Rng, fmt: Fmt, target_len: usize) -> Vec<u8> {
     v
 }
 
+/// One record (or defective record-like group) that is larger than a size at which code tends to
+/// change its behaviour: the default capacity (64 KiB), 1 MiB, and the 8 MiB growth step of the
+/// standard policy. A few small valid records in front and (if the giant one is complete) behind.
+/// Returns (input, class, threshold).
+pub fn huge_input(rng: &Rng, fmt: Fmt) -> (Vec<u8>, String, usize) {
+    let t = *rng.pick(&[65536usize, 65536, 65536, 65536, 65536, 65536, 65536, 65536, 1 << 20, 1 << 20, 1 << 20, 1 << 23]);
+    let size = t / 10 * rng.range(11, 25);
+    let crlf = rng.chance(1, 4);
+    let nl: &[u8] = if crlf { b"\r\n" } else { b"\n" };
+    let mut v = if rng.chance(1, 2) { many_small_records(rng, fmt, rng.range(1, 120)) } else { vec![] };
+    if crlf {
+        v = v.split(|b| *b == b'\n').collect::<Vec<_>>().join(&b"\r\n"[..]);
+    }
+    let fill = |v: &mut Vec<u8>, n: usize, alpha: &[u8]| {
+        let a = alpha[v.len() % alpha.len()];
+        let b = alpha[(v.len() / 3) % alpha.len()];
+        v.extend((0..n).map(|i| if i % 61 == 0 { b } else { a }));
+    };
+    let class: &str;
+    let complete;
+    match fmt {
+        Fmt::Fastq => {
+            let k = rng.below(8);
+            let start = if k == 3 || k == 7 { b'X' } else { b'@' };
+            v.push(start);
+            v.extend_from_slice(b"giant 1");
+            v.extend_from_slice(nl);
+            match k {
+                0 => {
+                    fill(&mut v, size / 2, b"ACGT");
+                    v.extend_from_slice(nl);
+                    v.push(b'+');
+                    v.extend_from_slice(nl);
+                    fill(&mut v, size / 2, b"IJK#");
+                    v.extend_from_slice(nl);
+                    class = "huge/valid";
+                    complete = true;
+                }
+                1 | 3 => {
+                    // truncated inside the quality line (k == 3: and a wrong first byte)
+                    fill(&mut v, size / 2, b"ACGT");
+                    v.extend_from_slice(nl);
+                    v.push(b'+');
+                    v.extend_from_slice(nl);
+                    fill(&mut v, size / 3, b"IJK#");
+                    if rng.chance(1, 2) {
+                        // ... or inside the sequence line
+                        v.truncate(v.len() - size / 3 - nl.len() - 1 - nl.len() - rng.range(0, 9));
+                    }
+                    class = if k == 1 { "huge/truncated" } else { "huge/wrong_start_truncated" };
+                    complete = false;
+                }
+                2 => {
+                    fill(&mut v, size, b"ACGT");
+                    class = "huge/truncated_in_sequence";
+                    complete = false;
+                }
+                4 | 5 => {
+                    let (ls, lq) = if k == 4 { (size / 5, size / 5 * 4) } else { (size / 3 * 2, size / 3) };
+                    fill(&mut v, ls, b"ACGT");
+                    v.extend_from_slice(nl);
+                    v.push(b'+');
+                    v.extend_from_slice(nl);
+                    fill(&mut v, lq, b"IJK#");
+                    v.extend_from_slice(nl);
+                    class = if k == 4 { "huge/quality_longer" } else { "huge/quality_shorter" };
+                    complete = true;
+                }
+                _ => {
+                    fill(&mut v, size / 2, b"ACGT");
+                    v.extend_from_slice(nl);
+                    v.push(if k == 6 { b'-' } else { b'+' });
+                    v.extend_from_slice(nl);
+                    fill(&mut v, size / 2, b"IJK#");
+                    v.extend_from_slice(nl);
+                    class = if k == 6 { "huge/invalid_separator" } else { "huge/wrong_start" };
+                    complete = true;
+                }
+            }
+        }
+        Fmt::Fasta => {
+            let k = rng.below(4);
+            v.push(b'>');
+            if k == 2 {
+                fill(&mut v, size / 2, b"abcdefgh ");
+            } else {
+                v.extend_from_slice(b"giant 1");
+            }
+            v.extend_from_slice(nl);
+            match k {
+                0 | 2 => {
+                    fill(&mut v, size / 2, b"ACGT");
+                    v.extend_from_slice(nl);
+                    class = if k == 0 { "huge/one_line" } else { "huge/long_header" };
+                }
+                1 => {
+                    let w = rng.range(1, 200);
+                    for _ in 0..size / (w + nl.len()) {
+                        fill(&mut v, w, b"ACGT");
+                        v.extend_from_slice(nl);
+                    }
+                    class = "huge/many_lines";
+                }
+                _ => {
+                    fill(&mut v, size, b"ACGT");
+                    class = "huge/no_final_terminator";
+                }
+            }
+            complete = k != 3;
+        }
+    }
+    if complete && rng.chance(2, 3) {
+        let mut tail = many_small_records(rng, fmt, rng.range(1, 80));
+        if crlf {
+            tail = tail.split(|b| *b == b'\n').collect::<Vec<_>>().join(&b"\r\n"[..]);
+        }
+        v.extend_from_slice(&tail);
+    }
+    (v, class.to_string(), t)
+}
+
+/// Configurations around the threshold `t` of `huge_input`: capacities at, next to and far from it,
+/// sources that deliver everything at once or in pieces of 4 KiB .. 1 MiB.
+pub fn huge_cfg(rng: &Rng, t: usize, input_len: usize) -> Cfg {
+    let cap = match rng.below(8) {
+        0 => t,
+        1 => t + 1,
+        2 => t - 1,
+        3 => 2 * t,
+        4 => t / 2,
+        5 => 65536,
+        6 => rng.range(3, 300),
+        _ => t + rng.range(0, t),
+    };
+    let script = match rng.below(5) {
+        0 | 1 => vec![],
+        2 => vec![65536],
+        3 => vec![1 << 20],
+        _ => vec![(if t <= 1 << 20 { rng.range(4096, 70_000) } else { rng.range(60_000, 3_000_000) }) as u32],
+    };
+    Cfg {
+        cap,
+        // (no additive policies here: growing by a few bytes per step is quadratic at this size)
+        policy: match rng.below(6) {
+            0 => PolicySpec::Mul(3),
+            1 => PolicySpec::JumpTo(input_len + rng.range(1, 20)),
+            2 => PolicySpec::DoubleUntil(rng.range(1, 40) << 20),
+            _ => PolicySpec::Std,
+        },
+        script,
+        cuts: vec![],
+        faults: vec![],
+        intr_burst: None,
+        lift: None,
+        pause: None,
+    }
+}
+
 /// "interrupt storm": a large buffer filled one or two bytes at a time with an Interrupted
 /// before every read, so that one single fill sees thousands of interruptions
 pub fn storm_cfg(rng: &Rng) -> Cfg {
